@@ -136,9 +136,12 @@ def _items_for(idx, points, choices, first, bound, deadline_wall, ctx):
     """One work item per (point >= first, alternative) of a default continuation."""
     items = []
     labels = [p[0] for p in points]
+    base_cost = cost_of(points, choices, first)
     for i in range(first, len(points)):
         label, n, costs = points[i]
         for alt in range(1, n):
+            if base_cost + costs[alt] > bound:
+                continue
             items.append((idx, list(choices[:i]) + [alt], labels[:i + 1], bound, deadline_wall, ctx, i + 1))
     return items
 
@@ -166,8 +169,7 @@ def run_explorer_property(mod, tier, seed, budget_s):
                     meta['nondeterministic_scenarios'].append(scns[idx].describe())
                 bound = mod.bound(tier, scns[idx])
                 items.append((idx, [], None, 0, deadline_wall, None, None))
-                if bound >= 1:
-                    items += _items_for(idx, points, choices, 0, bound, deadline_wall, None)
+                items += _items_for(idx, points, choices, 0, bound, deadline_wall, None)
             if items:
                 k = seed % len(items)
                 items = items[k:] + items[:k]
@@ -248,8 +250,31 @@ def confirm_and_report(mod, tier, stats, scns, prop_id):
     known = F.load_known()
     if not cands:
         return 0, known_hits, lines
-    with make_pool(mod.__name__, tier, nproc=min(NPROC, max(1, len(cands)))) as pool:
-        for v in cands[:40]:
+    rest = []
+    for v in cands:
+        k = None if v['clause'].startswith('HARNESS.') else F.match_known(known, prop_id, v)
+        if k is not None:
+            known_hits[k['id']] = (k, known_hits.get(k['id'], (k, 0))[1] + 1)
+        else:
+            rest.append(v)
+    if not rest:
+        for kid, (k, n) in sorted(known_hits.items()):
+            lines.append('KNOWN-FINDING: property=%s %s [%s; %d distinct witnesses this run]'
+                         % (prop_id, k['summary'], kid, n))
+        return 0, known_hits, lines
+    # one witness per (clause, where) first, so that every distinct failure kind gets replayed and reported
+    seen_kind, ordered, later = set(), [], []
+    for v in rest:
+        kind = (v['clause'], v.get('where'))
+        if kind not in seen_kind:
+            seen_kind.add(kind)
+            ordered.append(v)
+        else:
+            later.append(v)
+    ordered += later
+    CAP = 30
+    with make_pool(mod.__name__, tier, nproc=min(NPROC, max(1, min(len(ordered), CAP)))) as pool:
+        for v in ordered[:CAP]:
             if v['clause'].startswith('HARNESS.'):
                 path = F.write_replay(prop_id, v)
                 lines.append('VIOLATION property=%s replay=%s' % (prop_id, path))
@@ -269,17 +294,15 @@ def confirm_and_report(mod, tier, stats, scns, prop_id):
                 new += 1
                 continue
             v['trace'] = r1[3]
-            k = F.match_known(known, prop_id, v)
-            if k is not None:
-                known_hits.setdefault(k['id'], (k, 0))
-                known_hits[k['id']] = (k, known_hits[k['id']][1] + 1)
-                continue
             path = F.write_replay(prop_id, v)
             lines.append('VIOLATION property=%s replay=%s' % (prop_id, path))
             lines.append('  clause=%s where=%s scenario=%s' % (v['clause'], v.get('where'), v['scenario']))
             lines.append('  deviations=%s' % v['deviations'])
             lines.append('  detail=%s' % str(v['detail'])[:600])
             new += 1
+    if len(ordered) > CAP:
+        new += len(ordered) - CAP
+        lines.append('  (+%d further failing scenarios of the same kinds not replayed individually)' % (len(ordered) - CAP))
     for kid, (k, n) in sorted(known_hits.items()):
         lines.append('KNOWN-FINDING: property=%s %s [%s; %d distinct witnesses this run]'
                      % (prop_id, k['summary'], kid, n))
